@@ -216,6 +216,8 @@ Definition add_anns (n : snode) (more : list ann) : option snode :=       (* ann
   | _ => match n with
          | SLit l a => Some (SLit l (a ++ more))
          | SRef ns a => Some (SRef ns (a ++ more))
+         | SArr [] [] => Some (SArr more [])           (* an empty container written on one line is annotated like a leaf *)
+         | SObj [] [] => Some (SObj more [])
          | _ => None
          end
   end.
@@ -229,12 +231,18 @@ Fixpoint spvalue (fuel : nat) (ts : list stok) : option (snode * list stok) :=
     | KRef ns :: r => let (a, r') := take_anns r in Some (SRef ns a, r')
     | KLS :: r => let (a, r') := take_anns r in
                   match r' with
-                  | KRS :: r'' => Some (SArr a [], r'')
+                  | KRS :: r'' => match a with
+                                  | [] => let (a2, r3) := take_anns r'' in Some (SArr a2 [], r3)       (* [] // annotation *)
+                                  | _ => Some (SArr a [], r'')
+                                  end
                   | _ => spitems f r' a []
                   end
     | KLB :: r => let (a, r') := take_anns r in
                   match r' with
-                  | KRB :: r'' => Some (SObj a [], r'')
+                  | KRB :: r'' => match a with
+                                  | [] => let (a2, r3) := take_anns r'' in Some (SObj a2 [], r3)       (* {} // annotation *)
+                                  | _ => Some (SObj a [], r'')
+                                  end
                   | _ => spmembers f r' a []
                   end
     | _ => None
